@@ -9,7 +9,7 @@
    can still be waiting: request ids in the handler map, in the task channel, and of senders that
    hold a channel slot ([c_reserved]). *)
 From SV Require Import Base.Prelude Base.Bytes Model.ConnFail Proofs.ConnFail_proofs.
-From SV Require Import Model.Retry Proofs.ConnFail_retry.
+From SV Require Import Model.Retry Proofs.ConnFail_retry Proofs.ConnFail_accept.
 Open Scope N_scope.
 
 (* For EVERY schedule: once a fault label (end of stream at any byte offset, bad header, frame
@@ -189,6 +189,14 @@ Theorem C10_pool_never_again : forall ls1 ls2 p1 p2 c,
   prun p1 ls2 = Some p2 -> ~ In c (p_shared p2).
 Proof. exact pool_never_again. Qed.
 
+(* What the pool-level part of the tie checks ([pool_accept], extracted: the events recorded at the mock,
+   turned into a schedule of the pool machine by [pool_labels], must be a run): in a run, no request is
+   taken from a connection after its error event was processed -- and [pool_labels] processes every broken
+   connection before the next replacement connection appears. *)
+Theorem C10_pool_no_get_after_process : forall l1 c l2 p,
+  prun pool_init (l1 ++ PProcess c :: l2) = Some p -> ~ In (PGet c) l2.
+Proof. exact pool_no_get_after_process. Qed.
+
 (* The tie's acceptor [simulate] is a run of this very model: its result is a reachable state
    (so every theorem above applies to it), and it is either still open or completely torn down. *)
 Theorem C10_simulate_reachable : forall keep t, reachable false (simulate keep t).
@@ -198,6 +206,26 @@ Theorem C10_simulate_settled : forall keep t,
   c_status (simulate keep t) = Open \/
   exists e, c_status (simulate keep t) = Broken e /\ pending_rids (simulate keep t) = [].
 Proof. exact simulate_settled. Qed.
+
+(* SOUNDNESS of what the tie's driver evaluates before every `ok` ([accept_obs], extracted): if the
+   conjunction holds for the recorded connection traces [conns] and the client results [rs] (request i+1 at
+   index i), then for every request: it completed (no hang, no panic); if a row was handed to the caller it
+   carries the request's OWN marker, the bytes are intact, and some recorded connection shows -- after the
+   request frame with that request id on stream s, and before any other request frame on s -- a written chunk
+   that starts with complete frames (header checks passed, announced length = body length) one of which is
+   on stream s and has exactly the echo body of that marker and padding length (nothing foreign, nothing
+   partial); and a non-idempotent request was written on at most one connection (not re-sent). *)
+Theorem C10_accept_sound : forall prefix idem conns rs,
+  accept_obs prefix idem conns rs = true ->
+  forall i r, nth_error rs i = Some r -> result_ok prefix idem conns (1 + N.of_nat i) r.
+Proof. exact accept_sound. Qed.
+
+(* the two trace facts it rests on *)
+Theorem C10_sent_table_sound : forall t r body, In (r, body) (sent_table [] t) -> delivered_for r body t.
+Proof. exact sent_table_sound. Qed.
+
+Theorem C10_echo_of_sound : forall prefix body m p, echo_of prefix body = Some (m, p) -> echo_shape prefix body m p.
+Proof. exact echo_of_sound. Qed.
 
 (* ---- non-vacuity: concrete schedules ---------------------------------------------------- *)
 Definition ex_hdr (stream len : N) : list N := [132; 0; 0; stream; 8; 0; 0; 0; len].
@@ -273,6 +301,40 @@ Example C10_ex_retry_idempotent :
   attempt_error_of (Resp (mk_frame (ex_hdr 0 0) [])) = None.
 Proof. repeat split; reflexivity. Qed.
 
+(* accept_obs on concrete observations: accepting, and rejecting for each clause *)
+Definition ex_echo (m : N) (pad : list N) : list N :=
+  [0; 0; 0; 2; 9; 9] ++ be_enc 4 (8 + N.of_nat (List.length pad)) ++ be_enc 8 m ++ pad.
+Definition ex_conn : list tev :=
+  [TIn 0 2 false; TOut (ex_frame 0 (ex_echo 1 [5; 6])); TIn 1 4 false; TOut (firstn 20 (ex_frame 1 (ex_echo 2 [7]))); TFin].
+
+Example C10_ex_accept :
+  let px := [0; 0; 0; 2; 9; 9] in
+  echo_of px (ex_echo 1 [5; 6]) = Some (1, 2) /\ echo_of px (ex_echo 1 []) = Some (1, 0) /\
+  echo_of px (firstn 19 (ex_echo 1 [5; 6])) = None /\ echo_of [0; 0; 0; 2; 9; 8] (ex_echo 1 [5; 6]) = None /\
+  accept_obs px false [ex_conn] [ROk 1 2 true; RErr] = true /\
+  accept_obs px false [ex_conn] [ROk 1 2 true; RCancelled] = true /\
+  accept_obs px false [ex_conn] [ROk 1 2 true; RHang] = false /\            (* hang *)
+  accept_obs px false [ex_conn] [ROk 1 2 true; RPanic] = false /\
+  accept_obs px false [ex_conn] [ROk 1 2 true; ROk 2 1 true] = false /\     (* reply was cut: never completely sent *)
+  accept_obs px false [ex_conn] [ROk 2 2 true; RErr] = false /\             (* foreign marker *)
+  accept_obs px false [ex_conn] [ROk 1 2 false; RErr] = false /\            (* damaged bytes *)
+  accept_obs px false [ex_conn] [ROk 1 3 true; RErr] = false /\             (* a padding length that was not sent *)
+  accept_obs px false [ex_conn; [TIn 0 4 false]] [ROk 1 2 true; RErr] = false /\   (* non-idempotent request 2 re-sent *)
+  accept_obs px true [ex_conn; [TIn 0 4 false]] [ROk 1 2 true; RErr] = true.
+Proof. vm_compute. repeat split; reflexivity. Qed.
+
+(* pool_labels / pool_accept: a request on the broken connection is fine until the replacement appears,
+   and rejected afterwards; a connection cannot be added twice *)
+Example C10_ex_pool_accept :
+  pool_labels [] [EvAdd 1; EvGet 1; EvBreak 1; EvGet 1; EvAdd 2; EvGet 2] =
+    [PAdd 1; PGet 1; PBreak 1; PGet 1; PProcess 1; PAdd 2; PGet 2] /\
+  pool_accept [EvAdd 1; EvGet 1; EvBreak 1; EvGet 1; EvAdd 2; EvGet 2] = true /\
+  pool_accept [EvAdd 1; EvGet 1; EvBreak 1; EvAdd 2; EvGet 1] = false /\
+  pool_accept [EvAdd 1; EvBreak 1; EvAdd 2; EvBreak 2; EvAdd 3; EvGet 3] = true /\
+  pool_accept [EvAdd 1; EvBreak 1; EvAdd 2; EvBreak 2; EvAdd 3; EvGet 2] = false /\
+  pool_accept [EvAdd 1; EvAdd 1] = false /\ pool_accept [EvGet 1] = false /\ pool_accept [] = true.
+Proof. vm_compute. repeat split; reflexivity. Qed.
+
 Example C10_ex_resend_ok :
   resend_ok false 1 = true /\ resend_ok false 2 = false /\ resend_ok true 3 = true /\ resend_ok false 0 = true.
 Proof. repeat split; reflexivity. Qed.
@@ -344,6 +406,9 @@ Proof. vm_compute. repeat split; reflexivity. Qed.
 
 Print Assumptions C10_all_fail.
 Print Assumptions C10_framing.
+Print Assumptions C10_accept_sound.
+Print Assumptions C10_sent_table_sound.
+Print Assumptions C10_echo_of_sound.
 Print Assumptions C10_retry_clause.
 Print Assumptions C10_accounting.
 Print Assumptions C10_none_left.
@@ -364,5 +429,6 @@ Print Assumptions C10_reader_complete.
 Print Assumptions C10_parse_got.
 Print Assumptions C10_pool.
 Print Assumptions C10_pool_never_again.
+Print Assumptions C10_pool_no_get_after_process.
 Print Assumptions C10_simulate_reachable.
 Print Assumptions C10_simulate_settled.
